@@ -562,6 +562,11 @@ pub fn one_c13(prop: &str, c: &Case, rep: &mut Report) {
                 }
                 let flat: Vec<u64> = once.iter().flatten().copied().collect();
                 let want: Vec<u64> = via.faces().iter().map(fb).collect();
+                // (`Voronoi::into_faces` hands out the same list)
+                let owned: Vec<u64> = Voronoi::from(&vi).into_faces().iter().map(fb).collect();
+                if owned != want {
+                    rep.violations.push(Violation::new(prop, "c13.into_faces", "Voronoi::into_faces() is not bitwise the list returned by faces()".to_string(), Some(c), json!({})));
+                }
                 if flat != want {
                     rep.violations.push(Violation::new(prop, "c13.build_voronoi_cells_faces", format!("the faces appended by build_voronoi_cells ({} in cell order) are not bitwise the face list of Voronoi::from(&integrator) ({})", flat.len(), want.len()), Some(c), json!({})));
                 }
